@@ -108,7 +108,7 @@ def run_history(actions, workdir: Path) -> dict:
                         drive.use_serial_pool()
                     try:
                         res = evs[a["e"] - 1].evaluate(p, r, result_all=a["ra"], save_group_times=True if a["sgt"] else None,
-                                                       log_times=a["log"], verbose=False)
+                                                       log_times=a["log"], verbose=a["vb"])
                         ev_rec["res"] = _digest_result(res)
                     finally:
                         drive.use_serial_pool()
@@ -148,14 +148,14 @@ def random_history(rng, n):
     for _ in range(n):
         kinds = ["new_evaluator"] if nev == 0 else (["new_evaluator"] if nev < 3 else []) + ["evaluate"] * 4 + ["query_keys", "new_aggregator", "new_aggregator", "save"]
         k = rng.choice(kinds)
-        base = {"act": k, "e": 0, "c": "-", "inp": "-", "sgt": False, "ra": True, "log": False, "pool": "serial"}
+        base = {"act": k, "e": 0, "c": "-", "inp": "-", "sgt": False, "ra": True, "log": False, "vb": False, "pool": "serial"}
         if k == "new_evaluator":
             nev += 1
             base.update(e=nev, c=rng.choice(["c1", "c2", "c3"]), sgt=rng.random() < 0.3)
         else:
             base.update(e=rng.randint(1, nev))
             if k == "evaluate":
-                base.update(inp=rng.choice(["i1", "i2", "i3"]), sgt=rng.random() < 0.3, ra=rng.random() < 0.7, log=rng.random() < 0.3,
+                base.update(inp=rng.choice(["i1", "i2", "i3"]), sgt=rng.random() < 0.3, ra=rng.random() < 0.7, log=rng.random() < 0.3, vb=rng.random() < 0.3,
                             pool="real" if rng.random() < 0.1 else "serial")
             elif k == "new_aggregator":
                 base.update(log=rng.random() < 0.6)
@@ -186,7 +186,7 @@ def tlc_histories(num, depth, sd):
                 d = parse(m)
                 if d["act"] == "init":
                     continue
-                acts.append({"act": d["act"], "e": d["e"], "c": d["c"], "inp": d["inp"], "sgt": d["sgt"], "ra": d["ra"], "log": d["log"], "pool": d["pool"]})
+                acts.append({"act": d["act"], "e": d["e"], "c": d["c"], "inp": d["inp"], "sgt": d["sgt"], "ra": d["ra"], "log": d["log"], "vb": d["vb"], "pool": d["pool"]})
             if acts:
                 out.append(acts)
         return out, r
@@ -235,10 +235,10 @@ def check_C15(tier: str, v: Verdict):
             bad.add(tid)
             t = traces[tid - 1]
             e = t["ev"][l - 1]
-            site = {"act": e["act"], "opt_sgt": e["sgt"], "opt_log": e["log"], "opt_result_all": e["ra"], "pool": e["pool"],
+            site = {"act": e["act"], "opt_sgt": e["sgt"], "opt_log": e["log"], "opt_verbose": e["vb"], "opt_result_all": e["ra"], "pool": e["pool"],
                     "out": e["out"], "exc": e.get("exception", "").split(":")[0],
                     "after_aggregator_with_log_times": any(x["act"] == "new_aggregator" and x["log"] for x in t["ev"][:l])}
-            v.violation(viol["inv"], site, {"kind": "object-history", "actions": [{k: x[k] for k in ("act", "e", "c", "inp", "sgt", "ra", "log", "pool")} for x in t["ev"]],
+            v.violation(viol["inv"], site, {"kind": "object-history", "actions": [{k: x[k] for k in ("act", "e", "c", "inp", "sgt", "ra", "log", "vb", "pool")} for x in t["ev"]],
                                             "failing_step": l, "event": e}, what=f"{t['tag']} step {l}: {e['act']} {e.get('exception', '')[:100]}")
         for d in r.deadlocks:
             tid, l = int(d["vars"]["tid"]), int(d["vars"]["l"])
@@ -251,14 +251,14 @@ def check_C15(tier: str, v: Verdict):
     finally:
         shutil.rmtree(sdir, ignore_errors=True)
     v.cov["evaluations"] = sum(len(t["ev"]) for t in traces)
-    v.cov["distinct_nontrivial"] = len({json.dumps([[e[k] for k in ("act", "e", "c", "inp", "sgt", "ra", "log", "pool")] for e in t["ev"]]) for t in traces
+    v.cov["distinct_nontrivial"] = len({json.dumps([[e[k] for k in ("act", "e", "c", "inp", "sgt", "ra", "log", "vb", "pool")] for e in t["ev"]]) for t in traces
                                        if sum(1 for e in t["ev"] if e["act"] == "evaluate") >= 2})
     v.cov["rule"] = ("histories of API calls (new evaluator with/without save_group_times, evaluate with every combination of result_all / "
                      "save_group_times / log_times, serial or real multiprocessing pool, query of the advertised keys, aggregator construction "
                      "with/without log_times, save) on up to 3 shared evaluators of 3 configurations and 3 inputs: TLC-simulated behaviours of "
                      "Objects.tla replayed on real objects + seeded random histories; evaluations = API calls executed; distinct by action "
                      "sequence; non-trivial = at least two evaluate calls")
-    v.cov["samples"] = [[{k: e[k] for k in ("act", "e", "c", "inp", "sgt", "ra", "log", "pool")} for e in t["ev"]] for t in traces[:2]]
+    v.cov["samples"] = [[{k: e[k] for k in ("act", "e", "c", "inp", "sgt", "ra", "log", "vb", "pool")} for e in t["ev"]] for t in traces[:2]]
     v.assumptions += ["TLC, CommunityModules", "results are compared through a digest of the bit patterns of 22 reported attributes per group "
                       "(computation_time excluded); whether an evaluator has computed its keys is tracked by the harness from the history"]
 
